@@ -310,7 +310,7 @@ def main_check(check_id: str, tier: str, replay: str | None = None) -> int:
     if real:
         for v, p in zip(real, replay_paths):
             print("witness: " + json.dumps({k: v[k] for k in v if k not in ("spec", "stderr_tail")},
-                                           default=repr)[:1500])
+                                           default=repr)[:700])
         for p in replay_paths:
             print("VIOLATION property=%s replay=%s" % (check_id, p))
         if len(real) > len(replay_paths):
